@@ -69,9 +69,19 @@ func (c *cancelCtx) Done() <-chan struct{} {
 	}
 	return c.done
 }
+// Err is a poll of the context too (code may test ctx.Err() instead of selecting on Done()): it counts, and the
+// cancellation may land exactly here.
 func (c *cancelCtx) Err() error {
 	<-c.mu
 	defer func() { c.mu <- struct{}{} }()
+	if !c.fired {
+		c.n++
+		if c.n >= c.k {
+			c.fired = true
+			c.cause(errHarnessCause)
+			close(c.done)
+		}
+	}
 	if c.fired {
 		return context.Canceled
 	}
